@@ -304,7 +304,7 @@ def issue(ctx, name, f, tol, L, E, wit, stream):
 
 def make_lazy(ctx, rng, nd=None, matrix=False):
     sr = ctx.sr
-    sym = rng.choice(gen.SYMS5)
+    sym = gen.pick_sym(rng)
     vals = gen.Values(rng, rng.choice(["int", "int", "gauss"]), rng.choice(["float64", "float64", "complex128"]))
     if matrix and rng.random() < 0.3:
         # block-hermitian matrix that carries pending signs on its odd-odd blocks
